@@ -234,67 +234,148 @@ def run(ix, R):
     # ---- opacity on native points
     for site, interp_name in ((OPA + '::Opacity.opacity', 'interp'), (KT + '::KTable.opacity', 'interp1d')):
         with R.guard('3.native', 'DOM', site, 'native identity'):
+            from sa.helpers import resolve_guards, has_guard
             f = ix.func(site)
             fl = mkflow(ix, site)
             pe = param_env(fl, f, ['T', 'P', 'w'])
-            rets = fl.of('return')
-            co = one(calls(fl, 'compute_opacity'), 'compute_opacity call')
-            filt = co.args[2]
-            sel = spec(fl, 'where((self.wavenumberGrid >= min(w)) & (self.wavenumberGrid <= max(w)))[0]', pe)
-            why = []
-            # filter = slice(None) when no grid, else the native points inside the request
-            fa = atom_of(fl, filt)
-            if fa is None or fa.head != 'guard' or not (fl.tab.equal(fa.args[1], sel) or fl.tab.equal(fa.args[2], sel)):
-                why.append('native selection is %s' % fmt(fl, filt))
-            if not (fl.tab.equal(co.args[0], pe['T']) and fl.tab.equal(co.args[1], pe['P'])):
-                why.append('compute_opacity(%s)' % [fmt(fl, a) for a in co.args])
-            # the native opacities: whatever name the result of compute_opacity(...) is bound to
-            cov = fl.tab.atom('call', tuple(co.args), extra=('fn:self.compute_opacity',))
-            orig = [e for e in fl.of('assign') if e.value is not None and (fl.tab.equal(e.value, cov) or (
-                e.value.single_atom() is not None and e.value.mentions(
-                    lambda a: a.head == 'call' and a.extra and a.extra[0] == 'fn:self.compute_opacity') and
-                atom_of(fl, e.value).head == 'mcall' and atom_of(fl, e.value).extra[0] == 'fn:reshape'))]
-            o = one(orig, 'binding of the compute_opacity result')
-            same = [r for r in rets if fl.tab.equal(r.value, o.value) or
-                    (isinstance(r.value_ast, ast.Name) and r.value_ast.id == o.name)]
-            # every path that returns the native opacities unchanged must be licensed by
-            # `no grid given` or by an element-wise comparison of the selected native points with the request
-            conds = [spec(fl, '_or(w is None, array_equal(self.wavenumberGrid.take(F), w))', dict(pe, F=filt)),
-                     spec(fl, 'w is None', pe),
-                     spec(fl, 'array_equal(self.wavenumberGrid.take(F), w)', dict(pe, F=filt)),
-                     spec(fl, 'array_equal(self.wavenumberGrid[F], w)', dict(pe, F=filt))]
-            if not same:
-                why.append('no path returns the native opacities unchanged')
-            for s in same:
-                g = [x for x in s.guards if x.positive]
-                lic = bool(g) and any(fl.tab.equal(g[-1].rf, c) for c in conds)
-                if not lic:
-                    why.append('native opacities returned unchanged under %s, which does not compare every selected '
-                               'native point with the request' % [x.text() for x in s.guards])
-            R.check('3.native', 'DOM', site,
-                    'when the request equals the selected native points (or no grid is given) the value returned is '
-                    'compute_opacity(...) itself',
-                    not why, key='; '.join(why), detail='; '.join(why), loc=f.loc())
-            other = [r for r in rets if r not in same]
-            if len(other) != 1:
-                R.fail('3.interp', 'ALG', site, 'otherwise the value is interpolated over exactly the selected native points',
-                       '%d interpolation returns' % len(other), 'returns: %s' % [unparse(r.value_ast) for r in other], f.loc())
-                continue
-            r2 = other[0]
-            ok = False
-            if interp_name == 'interp':
-                ok = fl.tab.equal(r2.value, spec(fl, 'interp(w, self.wavenumberGrid[F], O)', dict(pe, F=filt, O=o.value)))
+            v = the_return(fl).value
+            if v is None:
+                raise AnalysisError('no value returned')
+            tab = fl.tab
+            F = spec(fl, 'flatnonzero((self.wavenumberGrid >= min(w)) & (self.wavenumberGrid <= max(w)))', pe)
+            b = dict(pe, F=F)
+            shape = '.reshape(-1, len(self.weights))' if interp_name == 'interp1d' else ''
+            c_none, f_none = tab.canon_cond(spec(fl, 'w is None', pe))
+            eqs = [tab.canon_cond(spec(fl, t_, b))[0] for t_ in (
+                'array_equal(self.wavenumberGrid.take(F), w)', 'array_equal(self.wavenumberGrid[F], w)',
+                'array_equal(w, self.wavenumberGrid.take(F))', 'array_equal(w, self.wavenumberGrid[F])')]
+
+            unknown = []
+
+            def scenario(no_grid, same, assume=None):
+                def decide(c):
+                    c, flip = tab.canon_cond(c)
+                    r = None
+                    if tab.equal(c, c_none):
+                        r = no_grid != f_none
+                    elif not no_grid and any(tab.equal(c, e_) for e_ in eqs):
+                        r = same
+                    elif assume is not None and any(tab.equal(c, u_) for u_ in assume):
+                        r = assume[[k_ for k_ in assume if tab.equal(c, k_)][0]]
+                    else:
+                        at = atom_of(fl, c)
+                        if at is not None and at.head == 'bool' and at.extra in ('And', 'Or'):
+                            vals = [decide(x) for x in at.args]
+                            if at.extra == 'Or':
+                                r = True if any(x is True for x in vals) else (False if all(x is False for x in vals) else None)
+                            else:
+                                r = False if any(x is False for x in vals) else (True if all(x is True for x in vals) else None)
+                        elif at is not None and at.head == 'unop' and at.extra == 'Not':
+                            x = decide(at.args[0])
+                            r = None if x is None else (not x)
+                        elif at is not None and at.head == 'guard':
+                            # a selection used as a condition (the value of an inlined predicate with several returns)
+                            x = resolve_guards(fl, c, decide)
+                            xa = atom_of(fl, x)
+                            if xa is not None and xa.head == 'const' and xa.args[0] in ('True', 'False'):
+                                r = xa.args[0] == 'True'
+                            elif xa is not None and xa.head != 'guard':
+                                r = decide(x)
+                    if r is None:
+                        at = atom_of(fl, c)
+                        if not (at is not None and at.head in ('bool', 'unop', 'guard')) and not any(tab.equal(c, u_) for u_ in unknown):
+                            unknown.append(c)
+                        return None
+                    return (not r) if flip else r
+                return decide
+
+            def settle(dec):
+                # the selection inside a condition may itself be a selection on `w is None`: settle inner guards first
+                x = v
+                for _ in range(3):
+                    x = resolve_guards(fl, x, dec)
+                return x
+            why, und = [], []
+            v1 = settle(scenario(True, None))
+            v2 = settle(scenario(False, True))
+            v3 = settle(scenario(False, False))
+            del unknown[:]
+            resolve_guards(fl, v3, scenario(False, False))      # collects the tests that are left in the settled expression
+            want1 = spec(fl, 'self.compute_opacity(T, P, slice(None))' + shape, b)
+            want2 = spec(fl, 'self.compute_opacity(T, P, F)' + shape, b)
+            for nm, got, want in (('no grid requested', v1, want1), ('the request is exactly the selected native points', v2, want2)):
+                if has_guard(got):
+                    und.append('%s: %s' % (nm, fmt(fl, got)[:160]))
+                elif not tab.equal(got, want):
+                    why.append('%s: returns %s, expected the opacities compute_opacity(...) gives for those points' % (
+                        nm, fmt(fl, got)[:160]))
+            # the native values may only be returned unchanged in those two cases
+            if not has_guard(v3) and tab.equal(v3, want2):
+                why.append('native opacities are returned unchanged although the request differs from the selected native points')
+            # a test that is neither `no grid` nor the element-wise comparison: if it can hand back the native values while
+            # the element-wise comparison fails, and looks only at sizes / end points, a request of the same size and range
+            # but other points gets the native values unchanged
+            if has_guard(v3) and unknown:
+                REDUCING = ('array_equal', 'array_equiv', 'allclose', 'all', 'any', 'isclose', 'equal')
+
+                def weak_(u_):
+                    return not u_.mentions(lambda a: a.head in ('call', 'mcall') and a.extra and
+                                           a.extra[0][3:].split('.')[-1] in REDUCING)
+
+                def search(asg, depth):
+                    """an assignment of the remaining tests under which the native values come back although the
+                    element-wise comparison fails"""
+                    del unknown[:]
+                    x_ = v3
+                    for _ in range(3):
+                        x_ = resolve_guards(fl, x_, scenario(False, False, asg))
+                    if not has_guard(x_):
+                        return asg if tab.equal(x_, want2) else None
+                    new_ = [u_ for u_ in unknown if not any(tab.equal(u_, k_) for k_ in asg)]
+                    if depth == 0 or not new_ or not weak_(new_[0]):
+                        return None
+                    for val_ in (True, False):
+                        r_ = search({**asg, new_[0]: val_}, depth - 1)
+                        if r_ is not None:
+                            return r_
+                    return None
+                hit = search({}, 8)
+                if hit:
+                    why.append('native opacities are returned unchanged when %s - a test on sizes / end points, not on '
+                               'every selected native point' % ' and '.join(
+                                   ('' if v_ else 'not ') + fmt(fl, u_)[:70] for u_, v_ in hit.items()))
+            if und and not why:
+                R.error('3.native', 'DOM', site, 'native identity', 'the dispatch depends on a test this rule cannot settle: %s' % und,
+                        loc=f.loc())
             else:
-                ic = one(calls(fl, 'interp1d'), 'interp1d call')
-                ok = fl.tab.equal(ic.args[0], spec(fl, 'self.wavenumberGrid[F]', {'F': filt})) and \
-                    fl.tab.equal(ic.args[1], o.value) and ic.kw.get('axis') is not None and ic.kw['axis'].const() == 0 \
-                    and r2.value is not None and any(
-                        fl.tab.atoms[a].head == 'callexpr' and 'interp1d' in fl.tab.fmt_atom(a)[:40] and
-                        len(fl.tab.atoms[a].args) == 2 and fl.tab.equal(fl.tab.atoms[a].args[1], pe['w'])
-                        for a in r2.value.all_atoms())
+                R.check('3.native', 'DOM', site,
+                        'when the request equals the selected native points (or no grid is given) the value returned is '
+                        'compute_opacity(...) itself, and only then',
+                        not why, key='; '.join(w_[:80] for w_ in why), detail='; '.join(why), loc=f.loc())
+            O = spec(fl, 'self.compute_opacity(T, P, F)' + shape, b)
+            ok = False
+            if has_guard(v3):
+                if why:
+                    continue        # reported under 3.native
+                R.error('3.interp', 'ALG', site, 'interpolation case', 'not settled: %s' % fmt(fl, v3)[:200], loc=f.loc())
+                continue
+            if interp_name == 'interp':
+                ok = tab.equal(v3, spec(fl, 'interp(w, self.wavenumberGrid[F], O)', dict(b, O=O))) or \
+                    tab.equal(v3, spec(fl, 'interp(w, self.wavenumberGrid.take(F), O)', dict(b, O=O)))   # 1-D grid: same points
+            else:
+                ics = [a_ for a_ in v3.all_atoms() if tab.atoms[a_].head == 'callexpr']
+                for a_ in ics:
+                    ce = tab.atoms[a_]
+                    fn = atom_of(fl, ce.args[0]) if isinstance(ce.args[0], RF) else None
+                    if fn is None or fn.head != 'call' or not fn.extra or fn.extra[0] != 'fn:interp1d':
+                        continue
+                    kws = dict(zip(fn.extra[1:], fn.args[len(fn.args) - len(fn.extra[1:]):])) if fn.extra[1:] else {}
+                    ok = len(ce.args) == 2 and tab.equal(ce.args[1], pe['w']) and \
+                        tab.equal(fn.args[0], spec(fl, 'self.wavenumberGrid[F]', b)) and tab.equal(fn.args[1], O) and \
+                        kws.get('axis') is not None and kws['axis'].const() == 0
             R.check('3.interp', 'ALG', site,
                     'otherwise the value is interpolated over exactly the selected native points and their opacities',
-                    ok, key=fmt(fl, r2.value)[:160], detail=fmt(fl, r2.value)[:300], loc=f.loc(r2.node))
+                    ok, key=fmt(fl, v3)[:160], detail=fmt(fl, v3)[:300], loc=f.loc())
     # ---- native grid choice
     site = SM + '::SimpleForwardModel.nativeWavenumberGrid'
     with R.guard('4.native', 'DOM', site, 'native grid'):
